@@ -48,7 +48,7 @@ func init() {
 		Exhaustive:  func(core.Tier) bool { return false },
 		Plan: func(tier core.Tier, seed int64) int {
 			if tier == core.Thorough {
-				return 2000
+				return 12000
 			}
 			return 64
 		},
